@@ -56,8 +56,15 @@ func TestSyncerHead(t *testing.T) {
 				times[i] = base.Add(time.Duration(i+1) * htick).UnixNano()
 			}
 			chain := vh.NewChainTimes("c", 1, times)
-			n := newNode(t, chain, 0, 1, hsync.WithBlockTime(htick), hsync.WithRecencyThreshold(time.Duration(rt)*htick),
-				hsync.WithTrustingPeriod(time.Duration(tp)*htick), hsync.WithPruningWindow(1000*time.Hour))
+			opts := []hsync.Option{hsync.WithBlockTime(htick), hsync.WithRecencyThreshold(time.Duration(rt) * htick),
+				hsync.WithTrustingPeriod(time.Duration(tp) * htick), hsync.WithPruningWindow(1000 * time.Hour)}
+			if mbt.Bool(c, "optRev") {
+				// variant: the same parameters given in the opposite order (what is configured does not depend on it)
+				for i, j := 0, len(opts)-1; i < j; i, j = i+1, j-1 {
+					opts[i], opts[j] = opts[j], opts[i]
+				}
+			}
+			n := newNode(t, chain, 0, 1, opts...)
 			clock, sub, started := 1, 0, false
 			kind := ""
 			lastX := 0
@@ -310,6 +317,81 @@ func TestHeadRace(t *testing.T) {
 				rec.Err = "gossip: " + gerr.Error()
 			}
 			rec.Started = parked
+			hsync.VerifHook = nil
+			n.stop()
+			synctest.Wait()
+		})
+		tw.Put(rec)
+		rw.Put(mbt.Result{ID: rec.Tr, Key: fmt.Sprint(rec.Tr), NonTriv: true, Verdict: "ok"})
+	}
+	// second kind: gossip teaches a non-adjacent head (kept in the pending set); the sync loop is parked at the same
+	// yield point in every Append it makes while it fills the gap and applies the pending headers, and Head() is
+	// sampled at each stop: what the Syncer has once returned as its head stays its head while it moves into the store.
+	for run := 0; run < 6; run++ {
+		rec := HeadStep{Tr: 500100 + run, I: 0, Op: "headseq", Trusted: []int{}, Results: []int{}}
+		synctest.Test(t, func(t *testing.T) {
+			bg := context.Background()
+			base := time.Now().Add(-30 * time.Second)
+			times := make([]int64, 16)
+			for i := range times {
+				times[i] = base.Add(time.Duration(i) * time.Second).UnixNano()
+			}
+			chain := vh.NewChainTimes("c", 1, times)
+			far := 3 + run%3
+			n := newNode(t, chain, 1, 1+run%2, hsync.WithBlockTime(time.Second), hsync.WithRecencyThreshold(time.Hour),
+				hsync.WithTrustingPeriod(2*time.Hour), hsync.WithPruningWindow(1000*time.Hour))
+			n.get.headFn = func(gcall, *vh.Header) (*vh.Header, error) { return nil, errors.New("no network head now") }
+			if run >= 3 {
+				// the gap arrives in two partial answers
+				n.get.rangeFn = func(gc gcall, from *vh.Header) ([]*vh.Header, error) {
+					return n.get.honestRange(from.Height()+1, from.Height()+2)
+				}
+			}
+			parkedCh := make(chan chan struct{}, 8)
+			hsync.VerifHook = func(ctx context.Context, point string, args ...uint64) {
+				if point == "syncStore.Append.afterHeadLoad" && (ctx == nil || ctx.Value(ctxKey{}) == nil) {
+					g := make(chan struct{})
+					parkedCh <- g
+					<-g
+				}
+			}
+			defer func() { hsync.VerifHook = nil }()
+			if err := n.sy.Start(bg); err != nil {
+				rec.Err = "start: " + err.Error()
+				return
+			}
+			sample := func() int {
+				ctx, cancel := context.WithTimeout(context.WithValue(bg, ctxKey{}, 1), time.Minute)
+				defer cancel()
+				h, err := n.sy.Head(ctx)
+				if err != nil || h == nil {
+					return 0
+				}
+				return int(h.Height())
+			}
+			drainParked := func() {
+				for k := 0; k < 32; k++ {
+					synctest.Wait()
+					select {
+					case g := <-parkedCh:
+						rec.Started = true
+						rec.Results = append(rec.Results, sample())
+						close(g)
+					default:
+						return
+					}
+				}
+			}
+			drainParked()
+			rec.Results = append(rec.Results, sample())
+			ctx, cancel := context.WithTimeout(context.WithValue(bg, ctxKey{}, 1), time.Minute)
+			gerr := n.sub.deliver(ctx, chain.At(uint64(far)))
+			cancel()
+			if gerr != nil {
+				rec.Err = "gossip: " + gerr.Error()
+			}
+			drainParked()
+			rec.Results = append(rec.Results, sample())
 			hsync.VerifHook = nil
 			n.stop()
 			synctest.Wait()
